@@ -49,7 +49,8 @@ def one(beh, n, seed):
         if ideal["type"] == "list":
             want_val = " ".join(args)
         elif ideal["type"] == "str":
-            want_val = sub_of(beh["vals"][0]["t"], ideal["value"][0], args[0])
+            # (an identifier is its own value - also where the harness put a CMake keyword in its place)
+            want_val = args[0] if beh["vals"][0]["form"] == "ident" else sub_of(beh["vals"][0]["t"], ideal["value"][0], args[0])
         else:
             want_val = fields.get("Default value")      # not demanded for UNSET
         exp = {"option_note": False, "type": ideal["type"], "Default value": want_val}
